@@ -44,6 +44,11 @@ var seqFuncs = []seqFunc{
 	{"pkg/llrp", "Client.SendFor", "llrp_Client_SendFor"},
 	{"internal/retry", "ExpBackOff.RetryWithCtx", "retry_ExpBackOff_RetryWithCtx"},
 	{"internal/driver", "ipGenerator", "driver_ipGenerator"},
+	{"pkg/llrp", "Client.passToHandler", "llrp_Client_passToHandler"},
+	{"pkg/llrp", "Client.readHeader", "llrp_Client_readHeader"},
+	{"pkg/llrp", "Client.handleIncoming", "llrp_Client_handleIncoming"},
+	{"pkg/llrp", "ackHandler.HandleMessage", "llrp_ackHandler_HandleMessage"},
+	{"pkg/llrp", "Client.send", "llrp_Client_send"},
 }
 
 // receivers of these types live in the World: their fields are read with World → T operations and their methods are
@@ -95,6 +100,9 @@ type sq struct {
 	loops    []*loopCtx // enclosing loops, innermost last
 	aux      []string   // loop definitions, in dependency order
 	lean     string
+	named    []types.Object    // named results (variables; a bare return yields their current values)
+	closures []*ast.FuncLit    // deferred function literals, by index ("§CLOSURE§i" in a defers list)
+	conts    []func() string   // continuation stack: what follows the end of a deferred closure's body
 }
 
 // loopCtx: a `for` loop becomes a recursive definition on a fuel argument; its parameters are the variables in scope at
@@ -193,6 +201,9 @@ func isByteSlice(t types.Type) bool {
 
 // opaqueName is the Env type name standing for Go type t (only called for types that are not concrete in Lean)
 func (s *sq) opaqueName(t types.Type, n ast.Node) string {
+	if a, ok := t.(*types.Alias); ok {
+		return s.opaqueName(types.Unalias(a), n)
+	}
 	switch x := t.(type) {
 	case *types.Named:
 		o := x.Obj()
@@ -224,6 +235,7 @@ func (s *sq) opaqueName(t types.Type, n ast.Node) string {
 
 // anyName names any type (also concrete ones) for use inside operation / type names
 func (s *sq) anyName(t types.Type, n ast.Node) string {
+	t = types.Unalias(t)
 	if isErrorType(t) {
 		return "error"
 	}
@@ -359,7 +371,14 @@ func (s *sq) function(fd *ast.FuncDecl, lean string, out *strings.Builder) {
 	if fd.Type.Results != nil {
 		for _, r := range fd.Type.Results.List {
 			if len(r.Names) > 0 {
-				s.bad(r, "named results")
+				for _, n := range r.Names {
+					s.named = append(s.named, s.p.info.Defs[n])
+					s.results = append(s.results, s.p.info.Types[r.Type].Type)
+				}
+				continue
+			}
+			if len(s.named) > 0 {
+				s.bad(r, "mixed named and unnamed results")
 			}
 			s.results = append(s.results, s.p.info.Types[r.Type].Type)
 		}
@@ -391,6 +410,9 @@ func (s *sq) function(fd *ast.FuncDecl, lean string, out *strings.Builder) {
 			s.selName[sl.Pos()] = s.counters["select"]
 		}
 		if ce, ok := n.(*ast.CallExpr); ok {
+			if _, isLit := ce.Fun.(*ast.FuncLit); isLit {
+				return true // a deferred function literal: its body is translated in place
+			}
 			if base, ok := s.calleeBase(ce); ok {
 				s.counters[base]++
 				s.callName[ce.Lparen] = fmt.Sprintf("%s_%d", base, s.counters[base])
@@ -434,7 +456,7 @@ func (s *sq) function(fd *ast.FuncDecl, lean string, out *strings.Builder) {
 				s.usesW = true
 			}
 		case *ast.CallExpr:
-			if id, ok := x.Fun.(*ast.Ident); ok && (id.Name == "close" || id.Name == "delete") {
+			if id, ok := x.Fun.(*ast.Ident); ok && (id.Name == "close" || id.Name == "delete" || id.Name == "panic" || id.Name == "make") {
 				if _, ok := s.p.info.Uses[id].(*types.Builtin); ok {
 					s.usesW = true
 				}
@@ -455,7 +477,11 @@ func (s *sq) function(fd *ast.FuncDecl, lean string, out *strings.Builder) {
 	})
 	s.body = fd.Body
 	s.lean = lean
-	body := s.stmts(fd.Body.List, nil)
+	var npre []string
+	for _, o := range s.named {
+		npre = append(npre, fmt.Sprintf("let %s : %s := %s", s.declare(o), s.lt(o.Type(), fd), s.zero(o.Type(), fd)))
+	}
+	body := lets(npre, s.stmts(fd.Body.List, nil))
 	var rts []string
 	if s.usesW {
 		rts = append(rts, "§World")
@@ -1042,6 +1068,16 @@ func (s *sq) ex(e ast.Expr, pre *[]string) (string, types.Type) {
 		b, _ := s.ex(x.Y, pre)
 		g := &g2l{p: s.p, fn: s.fn}
 		return g.binop(x.Op, a, b, s.ity(tv.Type, e), e), at
+	case *ast.IndexExpr:
+		// m[k] of a map (zero value when absent): the first component of the comma-ok lookup
+		m, mt := s.ex(x.X, pre)
+		mp, ok := mt.Underlying().(*types.Map)
+		if !ok {
+			s.bad(e, "index of a non-map")
+		}
+		k, kt := s.ex(x.Index, pre)
+		opn := s.op("index_"+s.anyName(mt, x), s.lt(mt, x)+" → "+s.lt(mp.Key(), x)+" → "+s.lt(mp.Elem(), x)+" × Bool")
+		return fmt.Sprintf("(%s %s %s).1", opn, m, s.coerce(k, kt, mp.Key(), x)), mp.Elem()
 	case *ast.SliceExpr:
 		// b[lo:hi] of a byte slice (Go panics when the bounds are out of range; that case is not represented)
 		v, t := s.ex(x.X, pre)
@@ -1126,6 +1162,15 @@ func (s *sq) ex(e ast.Expr, pre *[]string) (string, types.Type) {
 						v, _ := s.ex(x.Args[1], pre)
 						return "(List.replicate (Int.toNat " + v + ") (0 : Int))", tv.Type
 					}
+					if _, isChan := tv.Type.Underlying().(*types.Chan); isChan {
+						capv := "0"
+						if len(x.Args) == 2 {
+							capv, _ = s.ex(x.Args[1], pre)
+						}
+						n := s.fresh("ch")
+						*pre = append(*pre, fmt.Sprintf("let (w, %s) := %s w %s", n, s.op("make_"+s.anyName(tv.Type, e), "§World → Int → §World × "+s.lt(tv.Type, e)), capv))
+						return n, tv.Type
+					}
 				}
 				s.bad(e, "unsupported builtin %s", id.Name)
 			}
@@ -1148,7 +1193,8 @@ func (s *sq) ex(e ast.Expr, pre *[]string) (string, types.Type) {
 					case "errors.Is":
 						a, at := s.ex(x.Args[0], pre)
 						b, bt := s.ex(x.Args[1], pre)
-						return "(GoErr.is " + s.coerce(a, at, tv.Type, e) + " " + s.coerce(b, bt, tv.Type, e) + ")", tv.Type
+						errT := types.Universe.Lookup("error").Type()
+						return "(GoErr.is " + s.coerce(a, at, errT, e) + " " + s.coerce(b, bt, errT, e) + ")", tv.Type
 					case "fmt.Errorf":
 						return s.errorf(x, pre), tv.Type
 					}
@@ -1368,29 +1414,73 @@ func (s *sq) tuple(names []string) string {
 }
 
 func (s *sq) ret(vals []string, defers []string) string {
-	var parts []string
-	if s.usesW {
-		parts = append(parts, "w")
-	}
-	if s.rcvMut {
-		parts = append(parts, s.declare(s.valRcv))
-	}
-	parts = append(parts, vals...)
-	if len(parts) == 0 {
-		parts = []string{"()"}
-	}
+	// with named results the returned values are first stored in the result variables (deferred closures can read and
+	// change them); what the function returns is their value after the deferred calls
 	var pre []string
-	for i := len(defers) - 1; i >= 0; i-- {
-		pre = append(pre, defers[i])
+	if len(s.named) > 0 && !s.inBranch {
+		for i, v := range vals {
+			pre = append(pre, fmt.Sprintf("let %s := %s", s.declare(s.named[i]), v))
+		}
 	}
-	if s.hasLoop && !s.inBranch {
-		return lets(pre, "some "+s.tuple(parts))
+	final := func() string {
+		var parts []string
+		if s.usesW {
+			parts = append(parts, "w")
+		}
+		if s.rcvMut {
+			parts = append(parts, s.declare(s.valRcv))
+		}
+		if len(s.named) > 0 && !s.inBranch {
+			for _, o := range s.named {
+				parts = append(parts, s.declare(o))
+			}
+		} else {
+			parts = append(parts, vals...)
+		}
+		if len(parts) == 0 {
+			parts = []string{"()"}
+		}
+		if s.hasLoop && !s.inBranch {
+			return "some " + s.tuple(parts)
+		}
+		return s.tuple(parts)
 	}
-	return lets(pre, s.tuple(parts))
+	return lets(pre, s.runDefers(defers, final))
+}
+
+// runDefers: the deferred calls in LIFO order, then k; a deferred function literal is translated in place (its body sees
+// the variables as they are when the function returns)
+func (s *sq) runDefers(defers []string, k func() string) string {
+	if len(defers) == 0 {
+		return k()
+	}
+	d, rest := defers[len(defers)-1], defers[:len(defers)-1]
+	if strings.HasPrefix(d, "§CLOSURE§") {
+		idx := 0
+		fmt.Sscan(strings.TrimPrefix(d, "§CLOSURE§"), &idx)
+		lit := s.closures[idx]
+		s.conts = append(s.conts, func() string { return s.runDefers(rest, k) })
+		saveLoops, saveIn := s.loops, s.inBranch
+		s.loops, s.inBranch = nil, false
+		saved, savedUsed := copyNames(s.names), copyUsed(s.used)
+		body := s.stmts(lit.Body.List, nil)
+		s.names, s.used = saved, savedUsed
+		s.loops, s.inBranch = saveLoops, saveIn
+		s.conts = s.conts[:len(s.conts)-1]
+		return body
+	}
+	return d + "\n" + s.runDefers(rest, k)
 }
 
 func (s *sq) stmts(list []ast.Stmt, defers []string) string {
 	if len(list) == 0 {
+		if len(s.conts) > 0 && !s.inBranch && len(s.loops) == 0 {
+			k := s.conts[len(s.conts)-1]
+			s.conts = s.conts[:len(s.conts)-1]
+			r := k()
+			s.conts = append(s.conts, k)
+			return r
+		}
 		if len(s.loops) > 0 && !s.inBranch {
 			return s.continueLoop()
 		}
@@ -1427,6 +1517,20 @@ func (s *sq) stmts(list []ast.Stmt, defers []string) string {
 		pre = append(pre, fmt.Sprintf("let w := %s w %s %s", s.op("send_"+s.anyName(ct, x), "§World → "+s.lt(ct, x)+" → "+s.lt(c.Elem(), x)+" → §World"), ch, s.coerce(v, vt, c.Elem(), x)))
 		return lets(pre, s.stmts(rest, defers))
 	case *ast.ReturnStmt:
+		if len(s.conts) > 0 {
+			// `return` inside a deferred closure ends the closure
+			if len(x.Results) != 0 {
+				s.bad(x, "deferred closure returning values")
+			}
+			k := s.conts[len(s.conts)-1]
+			s.conts = s.conts[:len(s.conts)-1]
+			r := k()
+			s.conts = append(s.conts, k)
+			return r
+		}
+		if len(x.Results) == 0 && len(s.named) > 0 {
+			return s.ret(nil, defers)
+		}
 		if len(x.Results) != len(s.results) {
 			s.bad(x, "return with %d values", len(x.Results))
 		}
@@ -1463,6 +1567,17 @@ func (s *sq) stmts(list []ast.Stmt, defers []string) string {
 		if id, ok := ce.Fun.(*ast.Ident); ok {
 			if _, ok := s.p.info.Uses[id].(*types.Builtin); ok {
 				switch id.Name {
+				case "panic":
+					// the function ends here (deferred calls still run); the environment records the panic in the World
+					s.counters["panic"]++
+					pre = append(pre, fmt.Sprintf("let w := %s w", s.op(fmt.Sprintf("panic_%d", s.counters["panic"]), "§World → §World")))
+					var zs []string
+					if len(s.named) == 0 {
+						for _, r := range s.results {
+							zs = append(zs, s.zero(r, x))
+						}
+					}
+					return lets(pre, s.ret(zs, defers))
 				case "close":
 					ch, ct := s.ex(ce.Args[0], &pre)
 					pre = append(pre, fmt.Sprintf("let w := %s w %s", s.op("close_"+s.anyName(ct, x), "§World → "+s.lt(ct, x)+" → §World"), ch))
@@ -1488,6 +1603,26 @@ func (s *sq) stmts(list []ast.Stmt, defers []string) string {
 		// the function value and the arguments are evaluated now, the call happens when the function returns
 		var dpre []string
 		ce := x.Call
+		if lit, ok := ce.Fun.(*ast.FuncLit); ok {
+			if len(ce.Args) != 0 || lit.Type.Params.NumFields() != 0 || lit.Type.Results.NumFields() != 0 {
+				s.bad(x, "deferred function literal with parameters or results")
+			}
+			ast.Inspect(lit.Body, func(n ast.Node) bool {
+				switch n.(type) {
+				case *ast.DeferStmt, *ast.ForStmt, *ast.GoStmt:
+					s.bad(n, "unsupported statement in a deferred function literal")
+				}
+				if ce2, ok := n.(*ast.CallExpr); ok {
+					if id, ok := ce2.Fun.(*ast.Ident); ok && id.Name == "recover" {
+						s.bad(n, "recover")
+					}
+				}
+				return true
+			})
+			s.closures = append(s.closures, lit)
+			nd := append(append([]string{}, defers...), fmt.Sprintf("§CLOSURE§%d", len(s.closures)-1))
+			return s.stmts(rest, nd)
+		}
 		if s.callName[ce.Lparen] == "" {
 			s.bad(x, "unsupported deferred call")
 		}
@@ -1600,14 +1735,15 @@ func (s *sq) stmts(list []ast.Stmt, defers []string) string {
 		if x.Init != nil {
 			s.bad(x, "switch with init")
 		}
-		tag := ""
+		tag, tagT := "", ""
 		if x.Tag != nil {
 			v, t := s.ex(x.Tag, &pre)
-			if s.lt(t, x) != "Int" {
+			tagT = s.lt(t, x)
+			if tagT != "Int" && tagT != "GoErr" {
 				s.bad(x, "switch on a %s", t)
 			}
 			tag = s.fresh("tag")
-			pre = append(pre, fmt.Sprintf("let %s : Int := %s", tag, v))
+			pre = append(pre, fmt.Sprintf("let %s : %s := %s", tag, tagT, v))
 		}
 		// rewrite into an if-chain over synthetic conditions; the default arm comes last wherever it stands
 		type arm struct {
@@ -1638,7 +1774,13 @@ func (s *sq) stmts(list []ast.Stmt, defers []string) string {
 				if len(p2) > 0 {
 					s.bad(e, "call in a case expression")
 				}
-				if tag != "" {
+				if tag != "" && tagT == "GoErr" {
+					// `switch err { case X: }` compares with ==
+					if v == "NIL" {
+						v = "GoErr.nil"
+					}
+					cs = append(cs, fmt.Sprintf("(%s == %s)", tag, v))
+				} else if tag != "" {
 					cs = append(cs, fmt.Sprintf("decide (%s = %s)", tag, v))
 				} else {
 					cs = append(cs, v)
@@ -1933,7 +2075,10 @@ func (s *sq) forLoop(x *ast.ForStmt, rest []ast.Stmt, defers []string) string {
 	}
 	body := s.stmts(x.Body.List, defers)
 	s.names, s.used = copyNames(saved), copyUsed(savedUsed)
-	exit := s.exitLoop()
+	exit := ""
+	if x.Cond != nil {
+		exit = s.exitLoop() // `for { … }` ends only through return or break
+	}
 	s.loops = s.loops[:len(s.loops)-1]
 	s.names, s.used = saved, savedUsed
 	var sig []string
@@ -1945,7 +2090,12 @@ func (s *sq) forLoop(x *ast.ForStmt, rest []ast.Stmt, defers []string) string {
 	}
 	def := fmt.Sprintf("/-- the loop of %s at %s; `fuel` bounds the number of iterations -/\ndef %s (E : Env_%s) (fuel : Nat) %s : §RESULT :=\n  match fuel with\n  | 0 => none\n  | fuel + 1 =>\n    %s",
 		s.fn, s.p.pos(x), ctx.name, s.lean, strings.Join(sig, " "),
-		indent(indent(lets(cpre, fmt.Sprintf("if %s then\n  %s\nelse\n  %s", cond, indent(body), indent(exit))))))
+		indent(indent(func() string {
+			if x.Cond == nil {
+				return body
+			}
+			return lets(cpre, fmt.Sprintf("if %s then\n  %s\nelse\n  %s", cond, indent(body), indent(exit)))
+		}())))
 	s.aux = append(s.aux, def)
 	s.loopDone[key] = ctx.name
 	return lets(pre, s.loopCall(ctx))
